@@ -3,3 +3,7 @@ claim('C17', 'other',
       'Deductive core: fix/unfix lemmas for all 95^5 printable names, block_name inversion under each convention, and length/injectivity/NamingConventionError contracts of the name generators for all numbers 1..20000 are discharged by z3 from the real source on every run; "every constructed geometry" is decided by a bounded run-time check of the same contracts on constructors crossing each capacity limit.',
       'Trusted: pyvc semantics of the Python subset (A1-A3 in DESIGN 2.1), z3/cvc5. Bounded part: constructor enumeration, not proved.',
       'ast->z3 VCs on real functions (char-vector strings) + native counterexample replay + bounded run-time contracts', 'DESIGN.md 3/C17')
+claim('C16', 'other',
+      'Deductive: on the real source of fortran_float/fortran_int, for every printable string of length <= 20: no exception escapes, blank field <=> blank value, Python-accepted text gives Python\'s result (z3, character vectors). Fortran meaning (D/E letters, dropped letter, blanks ignored) against an independent specification automaton and garbage => nan/None: proved for all strings up to length 6 (quick) / 8 (thorough). Widths up to 20 for those two clauses are decided by a bounded rendering lattice.',
+      'Trusted: A2 (ASCII), A3 (CPython float() correctly rounded), pyvc float/int acceptance DFAs (differentially tested), z3/cvc5. One known finding (underscore class).',
+      'ast->z3 VCs on real functions (symbolic-length char vectors, DFA-unrolled float grammar) + native replay + bounded lattice', 'DESIGN.md 3/C16')
